@@ -18,6 +18,11 @@ What is extracted (each becomes one `Item` = one Lean `Expr` + one kernel-evalua
              be scale invariant) and every `np.isclose(a, b)` (as `|a-b| - (atol + rtol*|b|)`) found in the anchored files
   arg        every argument of a geometry call with a declared signature (`buffer(<length>)`, `translate(yoff=<length>)`,
              `local_depth(<length>)`, ...)
+  attr       `self._<name> = <formula>` in the constructors of ATTR_FILES (SplineGroove: width, usable_width, depth):
+             declared dimension of <name>
+  structure  (no Lean term) module-level numeric constants of every scanned file must have a declared dimension;
+             module-level state, `global`/`nonlocal`, and decorators other than hook registrations / PLAIN_DECORATORS
+             on any function of the scanned files are reported (the translated body would not be what a call executes)
 
 `Γ` (the variable typing) is generated from the declared table `DIMS` below: the dimension of a variable is the dimension
 declared for the LAST component of its attribute path (so `roll_pass.in_profile.width`, `cs.width` and the hook `width`
@@ -67,7 +72,14 @@ SITE_FILES = [
     ("helpers", "roll_pass/hookimpls/helpers.py"),
     ("unitcls", "unit/unit.py"),
     ("seqcls", "sequence/sequence.py"),
+    ("spline", "grooves/spline.py"),      # the one groove class that is not built on the junction chain
 ]
+# files whose `self._<name> = <formula>` assignments are translated (kind `attr`: declared dimension of <name>)
+ATTR_FILES = ("grooves/spline.py",)
+# decorators that do not change what a call of the decorated function executes (hook registrations are recognised by
+# pyexpr._decorator_info); anything else wraps the translated body in code the model does not contain
+PLAIN_DECORATORS = ("property", "classmethod", "staticmethod", "overload", "abstractmethod", "abc.abstractmethod",
+                    "cached_property", "functools.cached_property")
 
 # ---------------------------------------------------------------------------------------------------------------------
 # THE DECLARED DIMENSION TABLE: exponent of the length unit.  "Scaling every length input by k, with stresses, times,
@@ -646,14 +658,26 @@ class _SiteTr(pyexpr.ExprTranslator):
             if isinstance(f, ast.Name) and f.id == "len":
                 raise Untranslatable("len()")
             p = pyexpr.attr_path(f)
-            if p and p[-1] in ("all", "any", "asarray", "array") and p[0] in ("np", "numpy") and len(n.args) == 1:
+            if p and p[-1] in ("all", "any", "asarray", "array", "diff") and p[0] in ("np", "numpy") and len(n.args) == 1:
                 return self.tr(n.args[0])                    # element-wise tests: np.all(a < b)
+            if p and p[-1] in ("max", "min", "amax", "amin") and p[0] in ("np", "numpy") and len(n.args) == 1 \
+                    and not n.keywords:
+                return self.tr(n.args[0])                    # an element of the array: the array's dimension
+            if p and p[-1] == "ptp" and p[0] in ("np", "numpy") and len(n.args) == 1 \
+                    and all(k.arg == "axis" for k in n.keywords):
+                return self.tr(n.args[0])                    # a difference of two elements: the array's dimension
             if p and p[-1] in ("ones_like", "zeros_like"):
                 raise Untranslatable("array constructor")
             if p and len(n.args) == 1 and not n.keywords and (p[-1].lstrip("_") in QUERY_CALLS
                                                              or p[-1].endswith("_contour_line")):
                 self.tr(n.args[0])
                 return ("var", p[-1].lstrip("_") + "()")      # result of a chord / depth / contour query: a length
+        if isinstance(n, ast.Subscript) and isinstance(n.slice, ast.Constant) and isinstance(n.slice.value, str):
+            return ("var", n.slice.value)                    # `sol["flank_angle"]`: the entry named by the key
+        if isinstance(n, ast.Subscript) and pyexpr.attr_path(n) is None and _is_index(n.slice):
+            # `a[0, 1]`, `a[-1, 0]`, `a[:, 1]`: one component / one column of an array - the dimension of the array
+            # (which column is read is not visible to the typing: coordinates of one array share their dimension)
+            return self.tr(n.value)
         p = pyexpr.attr_path(n)
         if p is not None and not (p[0] in ("np", "numpy", "math")):
             if len(p) == 1 and p[0] in self.locals:
@@ -669,6 +693,17 @@ class _SiteTr(pyexpr.ExprTranslator):
             return ("var", ".".join(x.lstrip("_") if i == len(p) - 1 and x != "_old_results" else x
                                     for i, x in enumerate(p)))
         return super().tr(n)
+
+
+def _is_index(sl):
+    """constant integer (also negative), full slice `:`, or a tuple of those"""
+    if isinstance(sl, ast.Tuple):
+        return bool(sl.elts) and all(_is_index(x) for x in sl.elts)
+    if isinstance(sl, ast.Slice):
+        return sl.lower is None and sl.upper is None and sl.step is None
+    if isinstance(sl, ast.UnaryOp) and isinstance(sl.op, ast.USub):
+        sl = sl.operand
+    return isinstance(sl, ast.Constant) and isinstance(sl.value, int) and not isinstance(sl.value, bool)
 
 
 def _isclose_term(a, b, rtol, atol):
@@ -714,8 +749,11 @@ def site_items(files, repo=None):
     for fkey, rel, anchored in files:
         path = os.path.join(repo or REPO, CORE, rel)
         tree = ast.parse(open(path).read())
+        # module-level numeric constants WITHOUT a declared dimension are read as the number they are (`atol=TOLERANCE`
+        # is the literal tolerance); declared ones (MIN_ANGLE) stay variables of their declared dimension
+        mconsts = {name: e for (_, name, e, _, d) in structure_items([rel], repo)[0] if d is None}
         for qual, fn in _functions(tree):
-            locals_ = {}
+            locals_ = dict(mconsts)
             ords = {}
             tr = _SiteTr("self", {}, ())
             tr.locals = locals_             # shared: assignments met later in the body are seen by later translations
@@ -727,6 +765,32 @@ def site_items(files, repo=None):
 
             for n in _own_nodes(fn):
                 src = f"pyroll/core/{rel}:{getattr(n, 'lineno', fn.lineno)}"
+                if rel in ATTR_FILES and isinstance(n, ast.Assign) and len(n.targets) == 1 \
+                        and isinstance(n.targets[0], ast.Attribute) and isinstance(n.targets[0].value, ast.Name) \
+                        and n.targets[0].value.id == "self" and var_dim(n.targets[0].attr.lstrip("_")) is not None:
+                    name = n.targets[0].attr.lstrip("_")
+                    key, lean = new("attr", name)
+                    try:
+                        e = tr.tr(n.value)
+                    except Untranslatable as ex:
+                        skipped.append((key, src, f"assignment `{ast.unparse(n)[:80]}`: {ex}"))
+                        continue
+                    items.append(Item(key, lean, "attr", src, e, var_dim(name), anchored, ast.unparse(n)[:100]))
+                    continue
+                if rel in ATTR_FILES and isinstance(n, ast.AugAssign) and isinstance(n.op, (ast.Add, ast.Sub)):
+                    # `a[:, 0] -= <shift>`: the shift must have the dimension of what it is subtracted from
+                    key, lean = new("attr", "shift")
+                    try:
+                        tgt_e, e = tr.tr(n.target), tr.tr(n.value)
+                    except Untranslatable as ex:
+                        skipped.append((key, src, f"assignment `{ast.unparse(n)[:80]}`: {ex}"))
+                        continue
+                    want = dim_of(tgt_e, var_dim)
+                    if want[0] != "is":
+                        skipped.append((key, src, f"assignment `{ast.unparse(n)[:80]}`: target without a declared dimension"))
+                        continue
+                    items.append(Item(key, lean, "attr", src, e, want[1], anchored, ast.unparse(n)[:100]))
+                    continue
                 if isinstance(n, ast.Assign) and len(n.targets) == 1 and isinstance(n.targets[0], ast.Name):
                     try:
                         if isinstance(n.value, ast.IfExp):
@@ -790,6 +854,81 @@ def site_items(files, repo=None):
     return items, skipped
 
 
+def _groove_class_files(repo=None):
+    """every python file under pyroll/core/grooves (the solver-backed constructors live in sub-packages)"""
+    root = os.path.join(repo or REPO, CORE, "grooves")
+    out = []
+    for dp, _, fs in sorted(os.walk(root)):
+        for f in sorted(fs):
+            if f.endswith(".py") and f != "__init__.py":
+                out.append(os.path.relpath(os.path.join(dp, f), os.path.join(repo or REPO, CORE)).replace(os.sep, "/"))
+    return out
+
+
+def structure_items(rels, repo=None):
+    """-> (constants [(rel, name, value tuple, src, declared dimension | None)], findings [(key, src, text)]).
+    What the translation silently assumes about the files it reads: a call of a translated function executes the
+    translated body (no wrapping decorator), functions keep nothing between calls (no module-level containers, no
+    `global` / `nonlocal`), and every module-level number is a declared quantity."""
+    consts, findings = [], []
+    for rel in rels:
+        path = os.path.join(repo or REPO, CORE, rel)
+        tree = ast.parse(open(path).read())
+        known = {}
+        for n in tree.body:
+            src = f"pyroll/core/{rel}:{getattr(n, 'lineno', 0)}"
+            if isinstance(n, (ast.Import, ast.ImportFrom, ast.FunctionDef, ast.ClassDef)):
+                continue
+            if isinstance(n, ast.Expr) and isinstance(n.value, ast.Constant) and isinstance(n.value.value, str):
+                continue
+            if isinstance(n, ast.If) and "TYPE_CHECKING" in ast.unparse(n.test):
+                continue
+            tgt, val = None, None
+            if isinstance(n, ast.Assign) and len(n.targets) == 1 and isinstance(n.targets[0], ast.Name):
+                tgt, val = n.targets[0].id, n.value
+            elif isinstance(n, ast.AnnAssign) and isinstance(n.target, ast.Name) and n.value is not None:
+                tgt, val = n.target.id, n.value
+            if tgt == "__all__":
+                continue
+            if tgt is not None:
+                try:
+                    e = pyexpr.ExprTranslator("self", dict(known), ()).tr(val)
+                    if pyexpr.expr_vars(e):
+                        raise Untranslatable("not a closed constant")
+                except Untranslatable:
+                    e = None
+                if e is not None:
+                    known[tgt] = e
+                    consts.append((rel, tgt, e, src, var_dim(tgt)))
+                    if var_dim(tgt) is None:
+                        findings.append((f"{rel}:const:{tgt}", src,
+                                         f"module-level numeric constant `{ast.unparse(n)[:80]}` has no declared dimension "
+                                         f"(a tolerance / resolution in fixed units?)"))
+                    continue
+                if isinstance(val, ast.Constant) and isinstance(val.value, (str, bool, type(None))):
+                    continue
+                if isinstance(val, (ast.Tuple,)) and all(isinstance(x, ast.Constant) for x in val.elts):
+                    continue
+            findings.append((f"{rel}:module-state:{tgt or type(n).__name__}", src,
+                             f"module-level statement `{ast.unparse(n)[:80]}`: state outside the functions the translation reads"))
+        for qual, fn in _functions(tree):
+            src = f"pyroll/core/{rel}:{fn.lineno}"
+            for dec in fn.decorator_list:
+                if pyexpr._decorator_info(dec) is not None:
+                    continue
+                txt = ast.unparse(dec)
+                if txt in PLAIN_DECORATORS or txt.endswith(".setter") or txt.endswith(".getter") or txt.endswith(".deleter") \
+                        or txt.startswith("wraps(") or txt.startswith("functools.wraps("):
+                    continue
+                findings.append((f"{rel}:{qual}:decorator:{txt[:40]}", src,
+                                 f"`{qual}` is wrapped by the decorator `@{txt[:60]}`: a call does not execute the translated body alone"))
+            for n in _own_nodes(fn):
+                if isinstance(n, (ast.Global, ast.Nonlocal)):
+                    findings.append((f"{rel}:{qual}:{type(n).__name__.lower()}", src,
+                                     f"`{qual}` declares `{ast.unparse(n)}`: it keeps state between calls"))
+    return consts, findings
+
+
 # ---------------------------------------------------------------------------------------------------------------------
 def collect(repo=None):
     """everything, with `got` computed.  -> dict"""
@@ -798,6 +937,9 @@ def collect(repo=None):
     s_items, s_gaps, opaque_brackets = solver_items(repo)
     files = [(k, r, True) for k, r in ANCHORED_HOOK_FILES] + [(k, r, True) for k, r in SITE_FILES] \
         + [(k, r, False) for k, r in EXTRA_HOOK_FILES]
+    # the constructors of the groove classes (range checks on angles, tests on solver results)
+    scanned = {r for _, r, _ in files}
+    files += [("gc_" + _ident(os.path.basename(r)[:-3]), r, False) for r in _groove_class_files(repo) if r not in scanned]
     d_items, d_skipped = site_items(files, repo)
     items = h_items + g_items + s_items + d_items
     refs = {}
@@ -809,7 +951,7 @@ def collect(repo=None):
         it.got = dim_of(it.expr, var_dim, refs)
         if it.kind in ("chain", "contour", "resolve"):
             refs[it.lean] = it.got
-        if it.undeclared and it.kind in ("decision", "isclose", "arg"):
+        if it.undeclared and it.kind in ("decision", "isclose", "arg", "attr"):
             undeclared.append(it)          # cannot be typed: reported, not emitted
             continue
         kept.append(it)
@@ -818,8 +960,21 @@ def collect(repo=None):
         if it.lean in names:
             raise Untranslatable(f"duplicate Lean name {it.lean}")
         names[it.lean] = it
+    rels = sorted({r for _, r, _ in files})
+    consts, structure = structure_items(rels, repo)
+    # every other file of the core: only the module-level numbers (a tolerance in fixed units can sit anywhere)
+    others = []
+    for dp, _, fs in sorted(os.walk(os.path.join(repo or REPO, CORE))):
+        for f in sorted(fs):
+            r = os.path.relpath(os.path.join(dp, f), os.path.join(repo or REPO, CORE)).replace(os.sep, "/")
+            if f.endswith(".py") and r not in rels:
+                others.append(r)
+    c2, s2 = structure_items(others, repo)
+    consts += c2
+    structure += [x for x in s2 if ":const:" in x[0]]
     return {"items": kept, "hook_opaque": h_opaque, "nonnumeric_hooks": nonnumeric, "impls": impls, "gaps": g_gaps + s_gaps, "chain": chain,
-            "opaque_brackets": opaque_brackets, "skipped": d_skipped, "undeclared": undeclared}
+            "opaque_brackets": opaque_brackets, "skipped": d_skipped, "undeclared": undeclared,
+            "constants": consts, "structure": structure}
 
 
 def gamma_entries(items):
@@ -844,7 +999,8 @@ MODULES = [
      [("junctions", ("chain",)), ("contourFns", ("contour", "resolve")), ("residuals", ("residual",)),
       ("fixedPointMaps", ("map",)), ("brackets", ("bracket",)), ("starts", ("start",))]),
     ("Closed", ("closed", "plumb"), [("closedForms", ("closed",)), ("plumbing", ("plumb",))]),
-    ("Sites", ("decision", "isclose", "arg"), [("decisions", ("decision", "isclose")), ("geomArgs", ("arg",))]),
+    ("Sites", ("decision", "isclose", "arg", "attr"), [("decisions", ("decision", "isclose")), ("geomArgs", ("arg",)),
+                                                      ("attrAssignments", ("attr",))]),
 ]
 HEADER = ("/- GENERATED by driver/translate/c11_dims.py from /repo's working tree on every run - do not edit.\n"
           "   One `Expr` per closed-form expression of the anchored files and one kernel-evaluated certificate `<name>_dim`\n"
